@@ -129,14 +129,11 @@ class MailboxProgram(Program):
                 st.event('stream_closed')
             st.event('op_end', name, pc, k, 'Ok')
             yield st, None
-        elif k == 'stop':
-            s2, r = self.call(st, 'Addr::<A>::stop', [self.href(st, op[1], True)])
-            s2.event('op_end', name, pc, 'stop', self.sys.describe_result(s2, r))
-            yield s2, None
-        elif k == 'restart':
-            s2, r = self.call(st, 'Addr::<A>::restart', [self.href(st, op[1], True)])
-            s2.event('op_end', name, pc, 'restart', self.sys.describe_result(s2, r))
-            yield s2, None
+        elif k in ('stop', 'restart'):
+            # (may fork when the capacity is symbolic: the forced submission compares the queue length with n)
+            for s2, r in self.call(st, f'Addr::<A>::{k}', [self.href(st, op[1], True)], allow_fork=True):
+                s2.event('op_end', name, pc, k, self.sys.describe_result(s2, r))
+                yield s2, None
         elif k == 'halt':
             a = self.take(st, op[1])
             s2, fut = self.call(st, 'Addr::<A>::halt', [a])
